@@ -52,8 +52,15 @@ def run(ctx):
             out.append(d)
         return out
     s_send, t_send = send(score_h), send(tag_h)
+    # call histories with SEVERAL predictors on one sentence object (from the life-cycle model): scratch state left by one
+    # scorer variant must not change what another computes
+    from props import _lifecycle as L
+    lc, lpreds = L.generate(ctx, 3, 1)
+    multi = [c for c in lc if sum(1 for o in c["ops"][:-14] if o["op"] == "predict") >= 2]
+    for k, c in enumerate(multi[:: max(1, len(multi) // (120 if ctx.quick else 600))]):
+        t_send.append({"id": 5 * 10 ** 6 + k, "kind": "history", "preds": lpreds, "ops": c["ops"], "opts": {"writers": False}})
     # seeded random (model, texts) cases, generated once and replayed under every build
-    gen = vlib.record_events(ref_bin, "gencases", 500 if ctx.quick else 1500, ctx.seed, "C13-gencases")
+    gen = vlib.record_events(ref_bin, "gencases", 360 if ctx.quick else 1500, ctx.seed, "C13-gencases")
     for g in gen:
         wt = g.pop("with_tags")
         g["id"] = (2 if wt else 3) * 10 ** 6 + g["id"]
@@ -77,6 +84,10 @@ def run(ctx):
     if not ctx.quick:
         variants.append((tuple(FEATS) + ("portable-simd",), "nightly"))
         variants.append((("fix-weight-length", "portable-simd"), "nightly"))
+    if os.environ.get("C13_ONLY_SIMD"):
+        # (used by the sensitivity tests only) restrict the matrix to the nightly portable-simd builds
+        variants = [v for v in variants if v[1] == "nightly"] or [(tuple(FEATS) + ("portable-simd",), "nightly"),
+                                                                  (("fix-weight-length", "portable-simd"), "nightly")]
     for fs, tool in variants:
         tag = "none" if not fs else "+".join(x.split("-")[0] for x in fs)
         try:
